@@ -132,7 +132,7 @@ func showValue(v any) string {
 }
 
 // Decode and Check under recover(): (response, decode panicked, check panicked)
-func decodeAndCheck(typ, value string) (resp string, decPanic, chkPanic bool) {
+func decodeAndCheck(typ, value string) (resp string, decPanic, chkPanic bool, sharedMem string) {
 	var rule rules_lib.EventRule
 	var err error
 	func() {
@@ -144,10 +144,10 @@ func decodeAndCheck(typ, value string) (resp string, decPanic, chkPanic bool) {
 		rule, err = rules_lib.EventRuleModel{Type: typ, Value: value}.Decode()
 	}()
 	if decPanic {
-		return "panic", true, false
+		return "panic", true, false, ""
 	}
 	if err != nil {
-		return "err", false, false
+		return "err", false, false, ""
 	}
 	chk := ""
 	func() {
@@ -180,11 +180,8 @@ func decodeAndCheck(typ, value string) (resp string, decPanic, chkPanic bool) {
 			sharedMem = fmt.Sprintf("decodes to %s, but after the caller changed that value the same text decodes to %s", val, v2)
 		}
 	}()
-	return "ok " + val + " check=" + chk, false, chkPanic
+	return "ok " + val + " check=" + chk, false, chkPanic, sharedMem
 }
-
-// set by decodeAndCheck when a decoder hands out shared memory (read and cleared by the handler)
-var sharedMem string
 
 // overwrite everything reachable from a decoded value that the caller can write to
 func scribble(v reflect.Value, depth int) {
@@ -232,7 +229,7 @@ func rulesHandler(args []string) (string, []string) {
 		if !ok {
 			return "bad-request", nil
 		}
-		resp, dp, cp := decodeAndCheck(typ, value)
+		resp, dp, cp, sharedMem := decodeAndCheck(typ, value)
 		if dp {
 			ps.add("C09", "type=%s value=%q Decode panics", typ, value)
 		}
@@ -241,7 +238,6 @@ func rulesHandler(args []string) (string, []string) {
 		}
 		if sharedMem != "" {
 			ps.add("C08", "type=%s value=%q %s", typ, value, sharedMem)
-			sharedMem = ""
 		}
 		if typ == "duration" && strings.HasPrefix(resp, "ok dur ") {
 			if x, err := utils.ParseDuration(value); err == nil {
